@@ -111,7 +111,7 @@ func TestVerifC11_Pacer(t *testing.T) {
 		var lastSent int64
 		var sends []v11pSend
 		var calls []v11pCall
-		waits, raises, bypass, bwChanges, capped := 0, 0, 0, 0, 0
+		waits, raises, bypass, bwChanges, capped, overflowIdles, overflowChecks := 0, 0, 0, 0, 0, 0, 0
 		ceilCorner := false
 		gapLimit := func() int64 { // largest (now-lastSent) allowed: rate x gap stays within 62 bits
 			return int64((uint64(1) << 62) / uint64(bwMax))
@@ -144,6 +144,21 @@ func TestVerifC11_Pacer(t *testing.T) {
 			}
 			wt := p.TimeUntilSend()
 			calls = append(calls, v11pCall{"TimeUntilSend", now, int64(wt), 0})
+			if lastSent != 0 && uint64(now-lastSent) >= (uint64(1)<<62)/uint64(bw) {
+				// outside the statement's range (rate x gap beyond 62 bits): progress only. quic-go re-arms
+				// a timer in the past immediately, so budget must exist at the latest after the time one
+				// datagram takes at the current bandwidth (+1 ms granularity).
+				overflowChecks++
+				g := mds*1000000000/bw + 1000000
+				if int64(wt) > now && int64(p.Budget(wt)) >= mds {
+					return int64(wt), true
+				}
+				if got := int64(p.Budget(monotime.Time(now + g))); got < mds {
+					fail("idle for %d ns at %d B/s: Budget(now)=%d, TimeUntilSend()=%d is not a usable future time and Budget(now+%d)=%d is still below one datagram %d: the sender can never send again",
+						now-lastSent, bw, int64(p.Budget(monotime.Time(now))), int64(wt), g, got, mds)
+				}
+				return now + g, true
+			}
 			if wt.IsZero() {
 				fail("Budget(now)=%d < datagram %d but TimeUntilSend()=0 (send loop would spin)", int64(p.Budget(monotime.Time(now))), mds)
 			}
@@ -172,7 +187,7 @@ func TestVerifC11_Pacer(t *testing.T) {
 		nops := rapid.IntRange(20, 300).Draw(rt, "nops")
 		var kinds []byte
 		for i := 0; i < nops; i++ {
-			k := rapid.IntRange(0, 9).Draw(rt, "op")
+			k := rapid.IntRange(0, 10).Draw(rt, "op")
 			kinds = append(kinds, byte('0'+k))
 			switch k {
 			case 0, 1: // advance
@@ -243,6 +258,16 @@ func TestVerifC11_Pacer(t *testing.T) {
 				bypass++
 			case 8: // long idle period
 				advance(rapid.Int64Range(int64(5*time.Second), int64(20*time.Second)).Draw(rt, "idle"))
+			case 10: // idle so long that bandwidth x idle leaves the 63-bit range (progress-only beyond it)
+				if lastSent == 0 || rapid.IntRange(0, 5).Draw(rt, "overflowIdle") != 0 {
+					break
+				}
+				f := rapid.SampledFrom([]float64{0.3, 0.6, 1.02, 1.5, 1.98, 2.6, 3.4, 17.3}).Draw(rt, "overflowFactor")
+				target := lastSent + int64(f*9.223372036854775807e18/float64(bw))
+				if target > now && target-lastSent < 3e17 {
+					now = target
+					overflowIdles++
+				}
 			case 9: // sub-millisecond step
 				advance(rapid.Int64Range(0, 1500000).Draw(rt, "dtSmall"))
 			}
@@ -269,6 +294,12 @@ func TestVerifC11_Pacer(t *testing.T) {
 		}
 		if capped > 0 {
 			cls = append(cls, "advanceClippedTo62bit")
+		}
+		if overflowIdles > 0 {
+			cls = append(cls, "idleBeyond62bit")
+		}
+		if overflowChecks > 0 {
+			cls = append(cls, "noBudgetBeyond62bit(progressRule)")
 		}
 		if ceilCorner {
 			cls = append(cls, "ceilMatters(>1ms,remainder)")
